@@ -93,7 +93,8 @@ fn describe(v: &Value) -> String {
 
 /// deep comparison: uiua equality + shape + type name + label + map-ness (+ keys), recursively.
 /// Err = (kind of mismatch : class of the innermost mismatching value, message)
-fn same(a: &Value, b: &Value, bits: bool) -> Result<(), (String, String)> {
+/// bits: 0 = uiua equality; 1 = bit-exact numbers, any NaN matches any NaN; 2 = bit-exact incl. NaN sign/payload
+fn same(a: &Value, b: &Value, bits: u8) -> Result<(), (String, String)> {
     let cls = |k: &str| format!("{k}:{}", val_class(a));
     if a.shape != b.shape {
         return Err((cls("shape"), format!("shape {:?} vs {:?}", a.shape, b.shape)));
@@ -133,14 +134,14 @@ fn same(a: &Value, b: &Value, bits: bool) -> Result<(), (String, String)> {
             if a != b {
                 return Err((cls("data"), "values differ under uiua equality".into()));
             }
-            if bits {
-                // bit-exact numbers (distinguishes -0.0 from 0.0)
+            if bits > 0 {
+                // bit-exact numbers (distinguishes -0.0 from 0.0, and with bits = 2 the NaN payloads)
                 let fa = floats_of(a);
                 let fb = floats_of(b);
                 for (i, (p, q)) in fa.iter().zip(&fb).enumerate() {
-                    if p.to_bits() != q.to_bits() && !(p.is_nan() && q.is_nan()) {
-                        let k = if *p == 0.0 && *q == 0.0 { "negzero" } else { "bits" };
-                        return Err((k.to_string(), format!("element {i}: bits of {p:?} vs {q:?}")));
+                    if p.to_bits() != q.to_bits() && !(bits == 1 && p.is_nan() && q.is_nan()) {
+                        let k = if *p == 0.0 && *q == 0.0 { "negzero" } else if p.is_nan() && q.is_nan() { "nan-bits" } else { "bits" };
+                        return Err((k.to_string(), format!("element {i}: bits {:#018x} ({p:?}) vs {:#018x} ({q:?})", p.to_bits(), q.to_bits())));
                     }
                 }
             }
@@ -231,13 +232,42 @@ fn gen_bin_num(r: &mut Rng, class: usize) -> f64 {
         7 => *r.pick(&[-2147483649.0, -1e15, -9223372036854775808.0, 9223372036854775808.0, -9007199254740993.0]),
         8 => *r.pick(&[0.5, -0.25, 1.5, 3.0e38, f64::INFINITY, f64::NEG_INFINITY, f64::NAN, 0.1f32 as f64, -1e-40f32 as f64, 16777217.5f32 as f64]),
         9 => *r.pick(&[0.1, std::f64::consts::PI, 1e300, -1e-300, 5e-324, 1e39, f64::from_bits(0x7ff8_0000_0000_0001), 1e20, -1e20, 3.0e38 * 2.0]),
+        12 => gen_special(r),
         10 => *r.pick(&[-0.0, 0.0, 255.0, 256.0, 65535.0, 65536.0, 4294967295.0, -128.0, -129.0, 127.0, 128.0, 32767.0, 32768.0, -32768.0, -32769.0, 2147483647.0, 2147483648.0, -2147483648.0, 16777216.0, 16777217.0, 1e30, -1e30]),
         _ => gen_finite_f64(r),
     }
 }
 
+/// NaNs with non-default payload / sign, signed zeros, subnormals, the edges of the f32 range
+const SPECIAL_BITS: [u64; 20] = [
+    0x7ff8_0000_0000_0003, // W, the wildcard
+    0x7ff8_0000_0000_0001, // map EMPTY sentinel
+    0x7ff8_0000_0000_0002, // map TOMBSTONE sentinel
+    0xfff8_0000_0000_0000, // -NaN (fits f32)
+    0x7ff0_0000_0000_0001, // signalling NaN, low payload
+    0x7ff8_0000_2000_0000, // quiet NaN whose payload fits f32
+    0xfff8_0000_6000_0000, // negative, payload fits f32
+    0x7ffc_0000_0000_0000, // payload in the top bits (fits f32)
+    0xffff_ffff_ffff_ffff, // all ones
+    0x8000_0000_0000_0000, // -0.0
+    0x0000_0000_0000_0000, // 0.0
+    0x0000_0000_0000_0001, // smallest f64 subnormal
+    0x800f_ffff_ffff_ffff, // largest negative f64 subnormal
+    0x36a0_0000_0000_0000, // 2^-149: smallest f32 subnormal, f32-exact
+    0xb7f0_0000_0000_0000, // -2^-128: f32 subnormal, f32-exact
+    0x3810_0000_0000_0000, // 2^-126: smallest normal f32
+    0x47ef_ffff_e000_0000, // f32::MAX
+    0x47ef_ffff_f000_0000, // just above f32::MAX (rounds to infinity as f32)
+    0x7ff0_0000_0000_0000, // inf
+    0xfff0_0000_0000_0000, // -inf
+];
+
+fn gen_special(r: &mut Rng) -> f64 {
+    f64::from_bits(*r.pick(&SPECIAL_BITS))
+}
+
 fn gen_bin_any(r: &mut Rng) -> f64 {
-    let c = r.below(12);
+    let c = r.below(13);
     gen_bin_num(r, c)
 }
 
@@ -252,9 +282,20 @@ fn gen_val(r: &mut Rng, depth: usize, max_rank: usize) -> Value {
     let kind = r.below(if depth < 3 { 7 } else { 5 });
     let mut v = match kind {
         0 => {
-            let class = r.below(12);
+            let class = r.below(13);
             let mixed = r.chance(1, 4);
-            let d: Vec<f64> = (0..n).map(|_| { let c = if mixed { r.below(12) } else { class }; gen_bin_num(r, c) }).collect();
+            // a quarter of the arrays: specials (NaN payloads, signed zeros, subnormals) next to one width class
+            let spiced = r.chance(1, 4);
+            let d: Vec<f64> = (0..n)
+                .map(|_| {
+                    if spiced && r.chance(1, 3) {
+                        gen_special(r)
+                    } else {
+                        let c = if mixed { r.below(13) } else { class };
+                        gen_bin_num(r, c)
+                    }
+                })
+                .collect();
             num(&shape, &d)
         }
         1 => byte(&shape, &(0..n).map(|_| r.below(256) as u8).collect::<Vec<_>>()),
@@ -306,7 +347,21 @@ fn boundary_values() -> Vec<Value> {
         &[2147483647.0, -1.0], &[2147483648.0, -1.0], &[-2147483648.0], &[-2147483649.0], &[9223372036854775808.0, -1.0], &[-9223372036854775808.0],
         &[-9223372036854777856.0], &[16777217.0, 0.5], &[0.5], &[0.1], &[-0.0], &[f64::NAN, 1.0],
     ];
-    rows.iter().map(|d| num(&[d.len()], d)).collect()
+    let mut vals: Vec<Value> = rows.iter().map(|d| num(&[d.len()], d)).collect();
+    // every special alone (scalar and list) and next to a companion of every width class, so that
+    // the narrowing paths (u8 .. i64, f32) are taken when the special allows it
+    let companions = [0.5, 1.0, 200.0, -3.0, 70000.0, -40000.0, 5000000000.0, -5000000000.0, 1e20, 0.1];
+    for b in SPECIAL_BITS {
+        let x = f64::from_bits(b);
+        vals.push(num(&[], &[x]));
+        vals.push(num(&[1], &[x]));
+        for c in companions {
+            vals.push(num(&[2], &[x, c]));
+        }
+    }
+    vals.push(num(&[4], &[f64::from_bits(0x7ff8_0000_0000_0003), 0.5, -0.0, f64::from_bits(0x36a0_0000_0000_0000)]));
+    vals.push(cplx(&[2], &[Complex::new(f64::from_bits(0x7ff8_0000_0000_0003), -0.0), Complex::new(f64::from_bits(0xfff0_0000_0000_0001), 5e-324)]));
+    vals
 }
 
 fn nest(mut v: Value, n: usize) -> Value {
@@ -400,9 +455,9 @@ fn search_binary(r: &mut Rng, n: usize, o: &mut Out) {
             Ok(bytes) => match run1("°binary", &[bytes.clone()]) {
                 Err(e) => o.violation("binary", &format!("decode-error-{}", val_class(v)), &describe(v), &e, "°binary binary"),
                 Ok(back) => {
-                    if let Err((k, e)) = same(v, &back, false) {
+                    if let Err((k, e)) = same(v, &back, 0) {
                         o.violation("binary", &k, &describe(v), &format!("{e}; got {}", describe(&back)), "°binary binary");
-                    } else if let Err((k, e)) = same(v, &back, true) {
+                    } else if let Err((k, e)) = same(v, &back, 2) {
                         o.violation("binary", &k, &describe(v), &format!("{e}; got {}", describe(&back)), "°binary binary");
                     }
                 }
@@ -437,9 +492,9 @@ fn search_repr(r: &mut Rng, n: usize, o: &mut Out) {
             Ok(st) => {
                 if st.len() != 1 {
                     o.violation("repr", &format!("eval-stack-{}", val_class(v)), &describe(v), &format!("text {src:?} gives {} values", st.len()), "repr");
-                } else if let Err((k, e)) = same(v, &st[0], false) {
+                } else if let Err((k, e)) = same(v, &st[0], 0) {
                     o.violation("repr", &k, &describe(v), &format!("text {src:?}: {e}; got {}", describe(&st[0])), "repr");
-                } else if let Err((k, e)) = same(v, &st[0], true) {
+                } else if let Err((k, e)) = same(v, &st[0], 1) {
                     o.violation("repr", &k, &describe(v), &format!("text {src:?}: {e}"), "repr");
                 }
             }
@@ -505,7 +560,7 @@ fn search_numbers(r: &mut Rng, n: usize, o: &mut Out) {
         match run1("⋕°⋕", &[v.clone()]) {
             Err(e) => o.violation("parse-array", if shape_len(&sh) == 0 { "error-empty" } else { "error" }, &describe(&v), &e, "⋕°⋕"),
             Ok(back) => {
-                if let Err((k, e)) = same(&v, &back, false) {
+                if let Err((k, e)) = same(&v, &back, 0) {
                     o.violation("parse-array", &k, &describe(&v), &format!("{e}; got {}", describe(&back)), "⋕°⋕");
                 }
             }
@@ -522,7 +577,7 @@ fn search_text(r: &mut Rng, n: usize, o: &mut Out) {
             match run1(prog, &[v.clone()]) {
                 Err(e) => o.violation(codec, if s.is_empty() { "error-empty" } else { "error" }, &format!("{s:?}"), &e, prog),
                 Ok(back) => {
-                    if let Err((k, e)) = same(&v, &back, false) {
+                    if let Err((k, e)) = same(&v, &back, 0) {
                         o.violation(codec, &k, &format!("{s:?}"), &format!("{e}; got {}", describe(&back)), prog);
                     }
                 }
@@ -550,7 +605,7 @@ fn search_bits_base(r: &mut Rng, n: usize, o: &mut Out) {
         match run1("°⋯⋯", &[v.clone()]) {
             Err(e) => o.violation("bits", &format!("error-{class}"), &describe(&v), &e, "°⋯⋯"),
             Ok(back) => {
-                if let Err((_, e)) = same(&v, &back, false) {
+                if let Err((_, e)) = same(&v, &back, 0) {
                     o.violation("bits", &class, &describe(&v), &format!("{e}; got {}", describe(&back)), "°⋯⋯");
                 }
             }
@@ -570,7 +625,7 @@ fn search_bits_base(r: &mut Rng, n: usize, o: &mut Out) {
         match run1("⌝⊥⟜⊥", &[v.clone(), num(&[], &[base])]) {
             Err(e) => o.violation("base", &format!("error-{class}"), &format!("base {base} of {}", describe(&v)), &e, "⌝⊥⟜⊥"),
             Ok(back) => {
-                if let Err((_, e)) = same(&v, &back, false) {
+                if let Err((_, e)) = same(&v, &back, 0) {
                     // shrink: find the first element that fails alone
                     let mut detail = format!("{e}; got {}", describe(&back));
                     let mut cls = "general".to_string();
@@ -660,7 +715,7 @@ fn search_json_csv(r: &mut Rng, n: usize, o: &mut Out) {
         match run1("°json json", &[v.clone()]) {
             Err(e) => o.violation("json", &format!("error-{class}"), &describe(&v), &e, "°json json"),
             Ok(back) => {
-                if let Err((k, e)) = same(&v, &back, false) {
+                if let Err((k, e)) = same(&v, &back, 0) {
                     let txt = run1("json", &[v.clone()]).map(|t| format!("{t:?}")).unwrap_or_default();
                     o.violation("json", &k, &describe(&v), &format!("{e}; json {txt}; got {}", describe(&back)), "°json json");
                 }
@@ -690,7 +745,7 @@ fn search_json_csv(r: &mut Rng, n: usize, o: &mut Out) {
         match run1("°csv csv", &[v.clone()]) {
             Err(e) => o.violation("csv", &format!("error-{class}"), &describe(&v), &e, "°csv csv"),
             Ok(back) => {
-                if let Err((_, e)) = same(&v, &back, false) {
+                if let Err((_, e)) = same(&v, &back, 0) {
                     let txt = run1("csv", &[v.clone()]).map(|t| format!("{t:?}")).unwrap_or_default();
                     o.violation("csv", class, &describe(&v), &format!("{e}; csv {txt}; got {}", describe(&back)), "°csv csv");
                 }
@@ -715,12 +770,12 @@ fn search_compress_bytes(r: &mut Rng, n: usize, o: &mut Out) {
         let class = format!("{algo}{}", if len == 0 { "-empty" } else { "" });
         o.count("compress");
         match run1(&format!("⌝compress \"{algo}\" compress \"{algo}\""), &[v.clone()]) {
-            Ok(back) if same(&v, &back, false).is_ok() => {}
+            Ok(back) if same(&v, &back, 0).is_ok() => {}
             other => o.violation("compress", &class, &format!("{len} bytes"), &format!("{:?}", other.map(|b| describe(&b))), "⌝compress compress"),
         }
         match run_uiua_with(&format!("°compress compress \"{algo}\""), &[v.clone()]) {
-            Ok(st) if st.len() == 2 && same(&v, &st[0], false).is_ok() && st[1] == Value::from(algo) => {}
-            Ok(st) if st.len() == 2 && same(&v, &st[1], false).is_ok() && st[0] == Value::from(algo) => {}
+            Ok(st) if st.len() == 2 && same(&v, &st[0], 0).is_ok() && st[1] == Value::from(algo) => {}
+            Ok(st) if st.len() == 2 && same(&v, &st[1], 0).is_ok() && st[0] == Value::from(algo) => {}
             other => o.violation("uncompress", &class, &format!("{len} bytes {:?}", &d[..len.min(12)]), &format!("{:?}", other.map(|st| st.iter().map(describe).collect::<Vec<_>>())), "°compress compress"),
         }
     }
@@ -757,7 +812,9 @@ fn search_compress_bytes(r: &mut Rng, n: usize, o: &mut Out) {
                     }
                     .clamp(lo, hi)
                 } else if f == "f32" {
-                    (gen_bin_any(r) as f32) as f64
+                    ((if r.chance(1, 3) { gen_special(r) } else { gen_bin_any(r) }) as f32) as f64
+                } else if r.chance(1, 3) {
+                    gen_special(r)
                 } else {
                     gen_bin_any(r)
                 }
@@ -771,7 +828,8 @@ fn search_compress_bytes(r: &mut Rng, n: usize, o: &mut Out) {
         match run1(&prog, &[v.clone(), fv.clone()]) {
             Err(e) => o.violation("bytes", &format!("error-{class}"), &format!("{f}{side} {}", describe(&v)), &e, &prog),
             Ok(back) => {
-                if let Err((_, e)) = same(&v, &back, false) {
+                if let Err((k, e)) = same(&v, &back, if int { 0 } else { 2 }) {
+                    let class = if k == "nan-bits" || k == "negzero" || k == "bits" { format!("{class}-{k}") } else { class.clone() };
                     o.violation("bytes", &class, &format!("{f}{side} {}", describe(&v)), &format!("{e}; got {}", describe(&back)), &prog);
                 }
             }
@@ -817,7 +875,7 @@ fn regress(o: &mut Out) {
             match run1(&prog, &[v.clone(), Value::from("i8")]) {
                 Err(e) => o.violation("bytes", "error-i8", &format!("i8{side} {}", describe(v)), &e, &prog),
                 Ok(back) => {
-                    if let Err((_, e)) = same(&want, &back, false) {
+                    if let Err((_, e)) = same(&want, &back, 0) {
                         o.violation("bytes", "i8", &format!("i8{side} {}", describe(v)), &format!("{e}; got {}", describe(&back)), &prog);
                     }
                 }
